@@ -125,6 +125,11 @@ func checkLimitLiteral(c *core.Ctx, p *core.Program, fn *core.FuncRef, lit *ast.
 		_ = used
 		// the scenario position is kept in the event log (count of TEST events so far)
 		in.Hooks.Cond = func(st *absint.State, atom string) (bool, bool) {
+			for _, e := range st.Events {
+				if e.Name == "RUNAWAY" {
+					return false, true
+				}
+			}
 			inner := strings.TrimSuffix(strings.TrimPrefix(atom, "("), ")")
 			var a, b, op string
 			for _, o := range []string{" == ", " <= ", " < "} {
@@ -174,6 +179,20 @@ func checkLimitLiteral(c *core.Ctx, p *core.Program, fn *core.FuncRef, lit *ast.
 		in.Hooks.Store = func(st *absint.State, obj types.Object, v absint.Val) {
 			if m := incRe.FindStringSubmatch(v.Canon()); m != nil && m[1] == obj.Name() {
 				st.Emit("INC "+obj.Name(), 0)
+				// two increments without a test in between: the verdict is already determined;
+				// stop exploring (answer every further undecided condition with false)
+				n := 0
+				for i := len(st.Events) - 1; i >= 0; i-- {
+					if strings.HasPrefix(st.Events[i].Name, "TEST") {
+						break
+					}
+					if strings.HasPrefix(st.Events[i].Name, "INC") {
+						n++
+					}
+				}
+				if n >= 2 {
+					st.Emit("RUNAWAY", 0)
+				}
 			}
 		}
 		in.Hooks.Call = chainCall(func(st *absint.State, call *ast.CallExpr, callee string, recv absint.Val, args []absint.Val) (absint.Val, bool) {
